@@ -29,8 +29,48 @@ CLS = "vgi_rpc/http/_replay.py:NonceCache"
 FIELD, LOCK = "_entries", "self._lock"
 
 
+def _gate_ttl_covers_window(ctx: Ctx) -> None:
+    """The gate remembers a nonce for `ttl_seconds`; the token it came from is acceptable from ts - skew to ts + skew.
+    A future-dated token (proxy clock ahead, age = -skew: accepted) stays acceptable for 2*skew after its first
+    acceptance, so the nonce must be remembered that long or its replay is accepted inside the window.  The two
+    freshness guards of verify_proof are evaluated to find the accepted age interval; the ttl expression of the
+    NonceCache the gate builds is evaluated with the same skew."""
+    PROOF = "vgi_rpc/http/_proof.py"
+    vp = ctx.fn(PROOF + ":verify_proof")
+    gate = ctx.fn(PROOF + ":proxy_proof_gate")
+    SK = 30
+    guards = [n for n in walk_scope(vp.node) if isinstance(n, ast.If) and "age" in names_in(n.test) and any("skew" in x for x in names_in(n.test))]
+    if len(guards) < 2:
+        raise AnalysisError("anchor=freshness guards (age vs skew) in verify_proof")
+    skn = next(x for g in guards for x in names_in(g.test) if "skew" in x)
+
+    def accepted(age: int) -> bool:
+        return not any(bool(mini_eval(g.test, {"age": age, skn: SK})) for g in guards)
+
+    ages = [a for a in range(-2 * SK, 2 * SK + 1) if accepted(a)]
+    if not ages:
+        raise AnalysisError("C23: verify_proof accepts no age at all under the evaluated guards")
+    width = max(ages) - min(ages)  # seconds between the earliest and the latest moment one token is acceptable
+    ctors = [c for c in walk_scope(gate.node) if isinstance(c, ast.Call) and last_attr(c) == "NonceCache"]
+    ctor = one(ctors, "NonceCache(...) construction in proxy_proof_gate", gate)
+    ttl = next((k.value for k in ctor.keywords if k.arg == "ttl_seconds"), ctor.args[0] if ctor.args else None)
+    if ttl is None:
+        raise AnalysisError("anchor=ttl_seconds argument of the gate's NonceCache")
+    env = {txt(a): SK for a in ast.walk(ttl) if isinstance(a, ast.Attribute) and "skew" in a.attr}
+    env.update({n: SK for n in names_in(ttl) if "skew" in n})
+    try:
+        tv = mini_eval(ttl, env)
+    except AnalysisError:
+        raise AnalysisError(f"C23: cannot evaluate the gate's nonce ttl `{txt(ttl)}`") from None
+    ctx.check(isinstance(tv, (int, float)) and tv >= width, "RF-BOUND", "gate:nonce-ttl-covers-acceptance-window", gate, ctor,
+              ok=f"nonces are remembered {tv}s, tokens are acceptable for at most {width}s after their first acceptance (skew={SK})",
+              bad=f"the gate remembers a nonce for `{txt(ttl)}` = {tv}s, but verify_proof accepts ages {min(ages)}..{max(ages)}s: a token dated {-min(ages)}s ahead (proxy clock skew) is acceptable for {width}s "
+              f"after its first use, so its replay between {tv}s and {width}s later is accepted")
+
+
 def run(ctx: Ctx) -> None:
     ctx.explanation = META["text"]
+    _gate_ttl_covers_window(ctx)
     ctx.not_decided = "memory-model details of CPython's OrderedDict; clock monotonicity (the clock is injected)."
     ctx.assumptions += ["threading.Lock gives mutual exclusion; `with lock:` releases on every exit"]
     ci = ctx.repo.cls(CLS)
